@@ -307,7 +307,12 @@ void SemAcquisitionImpl__wait_for(struct SemAcquisitionImpl* self, struct ActorI
     __CPROVER_ensures(vf_exc != 0 || self->granted_ || !(timeout > 0.0) ||
                       (g_sleeps == 1 && g_sleep_duration == timeout && ACT(self).model_action_ == TIMER &&
                        g_timer.__b_Action.activity_ == &ACT(self))) /*@ wait_for_arms_timer_of_exactly_t */
-    __CPROVER_ensures(!(timeout < 0.0) || g_sleeps == 0)             /*@ wait_for_negative_timeout_never_expires */;
+    __CPROVER_ensures(!(timeout < 0.0) || g_sleeps == 0)             /*@ wait_for_negative_timeout_never_expires */
+    /* t == 0 ("no token within 0 seconds"): the property demands a timeout report now, through a timer of duration 0 or
+       directly.  The code only arms a timer when timeout > 0: KNOWN FINDING (see known_findings.txt / level_note)     */
+    __CPROVER_ensures(vf_exc != 0 || self->granted_ || timeout != 0.0 ||
+                      (g_sleeps == 1 && g_sleep_duration == 0.0 && ACT(self).model_action_ == TIMER) ||
+                      (g_result_set == 1 && g_result_value)) /*@ wait_for_zero_timeout_expires_at_once */;
 
 #include "gen.c"
 
